@@ -139,13 +139,14 @@ def _uid(rng):
     return "%06x" % rng.getrandbits(24)
 
 
-def tmpl_qualified(rng, nodes, lits, deep=0, easy=False):
+def tmpl_qualified(rng, nodes, lits, deep=0, easy=False, n_pool=None):
     """a parent with 2-3 sibling property shapes carrying sh:qualifiedValueShape (value shapes drawn from a
     small pool, so two siblings may name the same one), some with sh:qualifiedValueShapesDisjoint"""
     u = _uid(rng)
     iri_nodes = [n for n in nodes if isinstance(n, URIRef)]
     pool = []
-    for k in range(2):
+    n_pool = n_pool or rng.choice([2, 2, 3, 3])     # three value shapes: a value shape can have two different siblings
+    for k in range(n_pool):
         v = new_shape(EX["QV%s_%d" % (u, k)] if rng.random() < 0.6 else BNode("qv%s_%d" % (u, k)), None)
         if not (easy and k == 0):
             v["comps"].append(gen_leaf(rng, False, nodes, lits))
@@ -165,7 +166,7 @@ def tmpl_qualified(rng, nodes, lits, deep=0, easy=False):
     parent = new_shape(EX["QP%s" % u], None)
     parent["targets"]["nodes"] = rng.sample(iri_nodes, min(2, len(iri_nodes)))
     props = []
-    for k in range(rng.randint(2, 3)):
+    for k in range(rng.randint(2, 3) + (1 if n_pool == 3 else 0)):
         ps = new_shape(BNode("qp%s_%d" % (u, k)), ("pred", rng.choice(PREDS[:2])))
         ps["sev"] = rng.choice([None, None, SH.Warning, SH.Info])
         qmin = rng.choice([None, 0, 1, 2])
@@ -177,7 +178,7 @@ def tmpl_qualified(rng, nodes, lits, deep=0, easy=False):
             qmin = rng.choice([1, 1, 2])
             qmax = rng.choice([qmin, qmin, qmin - 1])
         if easy:
-            ps["comps"].append(("qualified", [pool[k % 2]["id"]], qmin, qmax, True))
+            ps["comps"].append(("qualified", [pool[k % n_pool]["id"]], qmin, qmax, True))
         else:
             ps["comps"].append(("qualified", [rng.choice(pool)["id"]], qmin, qmax, rng.random() < 0.7))
         props.append(ps)
